@@ -560,7 +560,7 @@ class Body:
                 rs = self.receiver_start(i)
                 orig = self.src[toks[rs].start:toks[k].end]
                 self.edits.append((toks[rs].start, toks[rs].start, pre, "R5-m2f", -toks[i].start))
-                if has_args and req_args is None:
+                if has_args:
                     pa = post_a
                     if k == j + 1:  # no arguments
                         pa = re.sub(r",\s*$", "", pa)
